@@ -58,10 +58,11 @@ func checkC15(c *an.Ctx) {
 	c.Rule("C15.3", "no nil dereference of loaded structure (E6c): a pointer read from a map or slice of pointers (definitions, tasks, pipelines), a pointer parameter fed from such a read, or a result of an error-returning call, is dereferenced only under a dominating non-nil test (or, for call results, after a test of the call's error)")
 	c.Rule("C15.4", "no abort fed by loaded data (E6d): panic, logrus.Fatal*, os.Exit and template.Must in the load scope are limited to the named environment helpers and constant templates")
 	c.Rule("C15.5", "bounded recursion (E3): every recursive cycle of the load scope is guarded — the import recursion by the visited set on the key passed on, the recursion over included pipelines by the inclusion check of C18.5")
+	c.Rule("C15.6", "tolerated sentinel (E7 taint + E3): where a caller of Load tolerates an error matching a sentinel of internal/config and uses the returned configuration unconditionally, an error that may match the sentinel (the sentinel itself, an fmt.Errorf %w wrap of one, a result passed on) never crosses a recursive call of the loading functions, and Load returns the non-recursive origin together with the destination configuration")
 	c.NotDecided = append(c.NotDecided,
 		"termination and panic-freedom inside yaml.v2, encoding/json, go-toml, mapstructure, mergo, text/template and doublestar on adversarial input (their bodies are outside the lint's scope; Config.merge recovers, Loader.load's two mergo.Merge calls do not — assumption)",
 		"nil-ness of struct fields (only map/slice elements, parameters fed from them and call results are tracked)",
-		"which error values the CLI's Before hook tolerates while continuing with the returned configuration (a value-level argument about errors.Is chains)",
+		"the top-level file vanishing between the existence test and the read (the one sentinel-matching error Load returns without a configuration; the Before hook rejects it when the file was named explicitly)",
 		"resource exhaustion")
 	p := c.P
 	scope, roots := loadScope(c)
@@ -88,6 +89,7 @@ func checkC15(c *an.Ctx) {
 	nilDereferences(c, fns, scope, "C15.3")
 	aborts(c, fns, "C15.4")
 	boundedRecursion(c, fns, scope, "C15.5")
+	toleratedSentinels(c, "C15.6")
 	_ = p
 }
 
